@@ -104,3 +104,107 @@ def targets(tier='quick'):
                         lambda ip, repo, ne=ne: dyn.cd_scenario(ip, repo, num_envs=ne), post_cd_times, R, PROP,
                         replay=replay_cd))
     return T
+
+
+# ------------------------------------------------------------------------------------
+# time labels
+def scen_time(cls, meth):
+    def scen(ip, repo):
+        start, dt = Real('start'), Real('dt')
+        step = Int('step')
+        if cls == 'pt_tebd.PtTebd':
+            params = mkobj(repo, 'pt_tebd.PtTebdParameters', _dt=dt)
+            self_ = mkobj(repo, cls, _start_time=start, _parameters=params, _start_step=Int('start_step'))
+        elif cls == 'tempo.GibbsTempo':
+            return None
+        else:
+            params = mkobj(repo, 'tempo.TempoParameters', _dt=dt)
+            self_ = mkobj(repo, cls, _start_time=start, _parameters=params)
+        return {'args': [self_, step], 'step': step, 'start': start, 'dt': dt,
+                'inputs': {'start_time': start, 'dt': dt, 'step': step}}
+    return scen
+
+
+def post_time(ip, ctx, out):
+    if not expect_no_other_exception(ip, out):
+        return
+    off = ctx['args'][0].fields.get('_start_step', 0)     # PtTebd: start_time belongs to start_step
+    ip.prove('grid/label', out.value == ctx['start'] + z3.ToReal(ctx['step'] - off) * ctx['dt'])
+
+
+# ------------------------------------------------------------------------------------
+# Dynamics.add keeps times sorted and states aligned (representation invariant)
+def scen_dyn_add(ip, repo):
+    times, A, n = real_seq('times')
+    states, F, _ = v_seq('states', n)
+    shape = Vc('shape')
+    ip.assume(n >= 0)
+    # representation invariant on entry: non-decreasing times (instantiated on demand)
+    old_t, old_s = times.copy(), states.copy()
+    ip.add_universal(times, lambda i: z3.Implies(z3.And(i >= 0, i + 1 < n), old_t.fn(i) <= old_t.fn(i + 1)), n)
+    self_ = mkobj(repo, 'dynamics.Dynamics', _times=times, _states=states, _shape=shape)
+    t = Real('t_new')
+    st = Vc('state_new')
+    return {'args': [self_, t, st], 'self': self_, 'old_t': old_t, 'old_s': old_s, 'n': n, 't': t, 'st': st,
+            'seq_t': times, 'inputs': {'times': old_t, 't_new': t}}
+
+
+def post_dyn_add(ip, ctx, out):
+    if out.raised('AssertionError'):
+        return ip.prove('path-accounted', z3.BoolVal(True))     # shape / type rejections
+    if not expect_no_other_exception(ip, out):
+        return
+    self_, n, t, st = ctx['self'], ctx['n'], ctx['t'], ctx['st']
+    T2, S2 = self_.fields['_times'], self_.fields['_states']
+    old_t, old_s = ctx['old_t'], ctx['old_s']
+    ip.prove('dynlist/length', z3.And(T2.length == n + 1, S2.length == n + 1))
+    # the insertion position k chosen by the code
+    (seq, x, k), = ip.ghost['bisect']
+    i = fresh_int('i')
+    for idx in (i - 1, i, i + 1, k - 1, k):
+        ip.instantiate_universals(ctx['seq_t'], idx)
+    ip.prove('dynlist/sorted', z3.Implies(z3.And(i >= 0, i + 1 < n + 1), T2.fn(i) <= T2.fn(i + 1)))
+    # aligned: the new pair sits at k, all old pairs keep their partner
+    state_new = S2.fn(k)
+    ip.prove('dynlist/aligned-new', T2.fn(k) == t)
+    ip.prove('dynlist/aligned-old', z3.Implies(z3.And(i >= 0, i < n),
+             z3.And(T2.fn(z3.If(i < k, i, i + 1)) == old_t.fn(i), S2.fn(z3.If(i < k, i, i + 1)) == old_s.fn(i))))
+    ip.prove('dynlist/new-state-is-the-added-one', uf('np_array', st) == state_new)
+
+
+# ------------------------------------------------------------------------------------
+# Tempo.compute: times after compute(T)
+from . import tempo_sm
+
+
+def post_tempo_times(ip, ctx, out):
+    g = ctx['g']
+    if not out.returned:
+        return ip.prove('path-accounted', z3.BoolVal(True))
+    self_ = ctx['self']
+    d = self_.fields['_dynamics']
+    be = self_.fields['_backend_instance']
+    start, dt, T = g['start'], g['dt'], g['T']
+    times, states = d.fields['_times'], d.fields['_states']
+    k = be.fields['step']
+    j = fresh_int('j')
+    ip.prove('grid/tempo-times', z3.And(times.length == k + 1, states.length == k + 1,
+             z3.Implies(z3.And(j >= 0, j <= k), times.fn(j) == tempo_sm.label(start, dt, j))))
+    ip.prove('grid/tempo-states-aligned', z3.Implies(z3.And(j >= 0, j <= k),
+             states.fn(j) == tempo_sm.stored_state(j, g['dim'])))
+    ip.prove('grid/returns-own-dynamics', z3.BoolVal(out.value is d))
+
+
+_old_targets2 = targets
+
+
+def targets(tier='quick'):
+    T = _old_targets2(tier)
+    R = Registry()
+    for cls, meth in (('tempo.Tempo', '_time'), ('tempo.MeanFieldTempo', '_time'), ('pt_tebd.PtTebd', 'time')):
+        T.append(Target('grid/label[%s]' % cls, cls + '.' + meth, scen_time(cls, meth), post_time, R, PROP))
+    T.append(Target('dynlist/add', 'dynamics.Dynamics.add', scen_dyn_add, post_dyn_add, R, PROP))
+    RT = tempo_sm.tempo_registry()
+    T.append(Target('tempo/compute-times[fresh]', 'tempo.Tempo.compute', tempo_sm.tempo_scenario(True), post_tempo_times, RT, PROP))
+    T.append(Target('tempo/compute-times[continue]', 'tempo.Tempo.compute', tempo_sm.tempo_scenario(False), post_tempo_times, RT, PROP))
+    return T
